@@ -22,6 +22,21 @@ CHECKS = {
             "Generated-input search with an exact-arithmetic oracle and a tolerance of 64 units of rounding of the terms involved; refutes accuracy loss anywhere in the sampled domain, does not prove it for all arguments.",
             "Trusted: mpmath; accuracy of third-party special functions is inherited; denormal rates/counts may be flushed to zero by XLA/TF (accepted as the lambda=0 limit).",
             "DESIGN.md#c04"),
+    "C02": ("exploration",
+            "Hypothesis-generated specs/overrides/points/main data and *independent* auxiliary data vs. a name-keyed reference log-likelihood; additivity (main+constraint=full) and exp/log relations",
+            "Generated-input search: the auxiliary data are drawn independently of the parameters, which is what exposes mis-paired or permuted constraint terms; every constraint family and their interleavings in creation order are generated.",
+            "Trusted: vlib/refmodel.py likelihood template; reported auxdata_order as the pairing contract; tolerance 1e-10*(1+sum|terms|).",
+            "DESIGN.md#c02"),
+    "C10": ("exploration",
+            "Hypothesis-generated specs x batch sizes 1..8 with pairwise distinct rows: differential batched-vs-unbatched, reference model, exact non-interference (row replacement) and shape checks",
+            "Generated-input search over spec shapes with distinct rows; cross-row leakage is tested exactly (bit-identical other rows after replacing one row).",
+            "Trusted: unbatched model as differential reference plus vlib/refmodel.py; tolerance 1e-12*(1+sum|terms|).",
+            "DESIGN.md#c10"),
+    "C12": ("exploration",
+            "Hypothesis-generated workspaces with override sets and list permutations: structural invariants of the configuration, independent parameter table (defaults/overrides), Workspace.data / Workspace.build round trips, input non-mutation, permutation invariance",
+            "Generated-input search over workspace shapes, override sets and listing orders; each clause of the statement is a separate executable invariant with its own signature.",
+            "Trusted: documented per-type defaults transcribed in vlib/refmodel.py; random (not exhaustive) permutations.",
+            "DESIGN.md#c12"),
 }
 
 NOT_YET = "check not built yet in this session (work in progress; the design in DESIGN.md section 5 applies)"
